@@ -59,19 +59,19 @@ Proof. split; vm_compute; reflexivity. Qed.
 
 (* value mode and file mode of one statement, started from the same machine: the same global bindings,
    the same output written, the same input left *)
-Theorem C16_modes_bind_the_same_globals : forall t s s1 s2 v c m n G' x,
-  wstmt t = true -> wfcs s -> idle v s c m ->
+Theorem C16_modes_bind_the_same_globals : forall Bf t s s1 s2 v c m n G' x,
+  wstmt t = true -> wfcs s -> idle v s c m -> bcode Bf (load_code v s) ->
   ByteCode t s = CompOk s1 -> ByteCodeNoStck t s = CompOk s2 ->
-  ssem n (wof v) t = Some (G', Ok x) ->
+  ssem Bf n (wof v) t = Some (G', Ok x) ->
   exists k, forall fuel, (k < fuel)%nat ->
     wof (fst (Run fuel (load_code v s1) true)) = G' /\
     wof (fst (Run fuel (load_code v s2) false)) = G' /\
     snd (Run fuel (load_code v s1) true) = RValue x /\
     snd (Run fuel (load_code v s2) false) = RValue VNil.
 Proof.
-  intros t s s1 s2 v c m n G' x Hw Hwf Hid HB1 HB2 HM.
-  destruct (bytecode_run_stmt t s s1 v c m n G' (Ok x) Hw Hwf Hid HB1 HM) as [_ [k1 R1]].
-  destruct (bytecode_nostck_run_stmt t s s2 v c m n G' (Ok x) Hw Hwf Hid HB2 HM) as [_ [k2 R2]].
+  intros Bf t s s1 s2 v c m n G' x Hw Hwf Hid Hbc HB1 HB2 HM.
+  destruct (bytecode_run_stmt Bf t s s1 v c m n G' (Ok x) Hw Hwf Hid Hbc HB1 HM) as [_ [_ [k1 R1]]].
+  destruct (bytecode_nostck_run_stmt Bf t s s2 v c m n G' (Ok x) Hw Hwf Hid Hbc HB2 HM) as [_ [k2 R2]].
   exists (Nat.max k1 k2). intros fuel Hf.
   destruct (R1 fuel) as [_ R1']. specialize (R1' ltac:(lia)). specialize (R2 fuel ltac:(lia)).
   destruct R1' as [v1 [m1 (E1 & _ & _ & _ & G1 & _)]]. destruct R2 as [v2 [m2 (E2 & _ & _ & _ & G2 & _)]].
